@@ -34,7 +34,7 @@ def _hook(event, args):
 
 
 def plan(tier, seed):
-    n = 5 if tier == "quick" else 120
+    n = 12 if tier == "quick" else 150
     return [{"seed": seed, "k": k, "n": n} for k in range(16)]
 
 
